@@ -1,3 +1,3 @@
 module verif/engine
 
-go 1.20
+go 1.21
